@@ -39,11 +39,17 @@ def observe (r : Record) : List (Option RCol) × List (Text × RCol) := (r.slots
 inductive EditOp where
   | set (k : RKey) (x : RCol)
   | del (k : RKey)
+  /-- `record.popitem()` (inherited from `MutableMapping`) -/
+  | pop
+  /-- `record.clear()` (inherited from `MutableMapping`) -/
+  | clear
 
 /-- apply one edit; a raising edit leaves the object in the state the model returns -/
 def step (r : Record) : EditOp → Record
   | .set k x => (r.setItem k x).1
   | .del k => (r.delItem k).1
+  | .pop => r.popItem.1
+  | .clear => (Record.clear (r.slots.length + 1) r).1
 
 /-! ### the invariant holds initially and is preserved -/
 
@@ -94,10 +100,78 @@ theorem del_error_from_lookup (r : Record) (key : RKey) (e : PyErr)
     r.getItem key = .error e ∨ (r.getItem key = .ok none ∧ e = .key) :=
   delItem_error_from_lookup ((inv_iff _).1 h) key e he
 
+/-- `popitem()` is a deletion: it keeps the record coherent -/
+theorem inv_popItem (r : Record) (h : Inv r) : Inv r.popItem.1 := by
+  unfold Record.popItem
+  split
+  · exact h
+  · exact inv_delItem r _ h
+  · exact inv_delItem r _ h
+
+/-- a failing `popitem()` (the empty record, an empty slot 0) leaves the record unchanged -/
+theorem failed_noop_pop (r : Record) (e : PyErr) (he : r.popItem.2 = .error e) (h : Inv r) : r.popItem.1 = r := by
+  cases hk : r.keys with
+  | nil => simp only [Record.popItem, hk]
+  | cons a t =>
+    cases a with
+    | none =>
+      simp only [Record.popItem, hk] at he ⊢
+      exact failed_noop_del_eq r _ e he h
+    | some k =>
+      simp only [Record.popItem, hk] at he ⊢
+      exact failed_noop_del_eq r _ e he h
+
+/-- `clear()` keeps the record coherent, however many rounds it makes -/
+theorem inv_clear (fuel : Nat) (r : Record) (h : Inv r) : Inv (Record.clear fuel r).1 := by
+  induction fuel generalizing r with
+  | zero => exact h
+  | succ n ih =>
+    unfold Record.clear
+    have hp := inv_popItem r h
+    split
+    · next r' heq => exact ih r' (by rw [heq] at hp; exact hp)
+    · next r' heq => rw [heq] at hp; exact hp
+    · next r' e _ heq => rw [heq] at hp; exact hp
+
+/-- on a coherent record `popitem()` fails with `KeyError` only (the empty record, an empty first position) -/
+theorem pop_error_is_key (r : Record) (e : PyErr) (he : r.popItem.2 = .error e) (h : Inv r) : e = .key := by
+  cases hk : r.keys with
+  | nil => simp only [Record.popItem, hk] at he; cases he; rfl
+  | cons a t =>
+    cases a with
+    | none =>
+      simp only [Record.popItem, hk] at he
+      rcases del_error_from_lookup r _ e he h with h1 | ⟨_, h2⟩
+      · simp [Record.getItem] at h1
+      · exact h2
+    | some k =>
+      simp only [Record.popItem, hk] at he
+      rcases del_error_from_lookup r _ e he h with h1 | ⟨_, h2⟩
+      · simp only [Record.getItem] at h1
+        split at h1
+        · cases h1
+        · cases h1; rfl
+      · exact h2
+
+/-- hence `clear()` never raises on a coherent record: every failure of `popitem()` is the `KeyError` it swallows -/
+theorem clear_ok (fuel : Nat) (r : Record) (h : Inv r) : (Record.clear fuel r).2 = .ok () := by
+  induction fuel generalizing r with
+  | zero => rfl
+  | succ n ih =>
+    unfold Record.clear
+    have hp := inv_popItem r h
+    split
+    · next r' heq => exact ih r' (by rw [heq] at hp; exact hp)
+    · rfl
+    · next r' e hne heq =>
+      exact absurd (pop_error_is_key r e (by rw [heq]) h) (by intro he; exact hne (by rw [he]))
+
 theorem inv_step (r : Record) (op : EditOp) (h : Inv r) : Inv (step r op) := by
   cases op with
   | set k x => exact inv_setItem r k x h
   | del k => exact inv_delItem r k h
+  | pop => exact inv_popItem r h
+  | clear => exact inv_clear _ r h
 
 /-- the invariant holds in every state reachable from the empty record -/
 theorem inv_history (ops : List EditOp) : Inv (ops.foldl step {}) := by
@@ -299,5 +373,17 @@ example : ((demoOps.foldl step {}).setItem (.column colB.col) colB).2 = .error .
 /-- deleting the last column also drops the gap before it: the length is again highest index + 1 -/
 example : ((demoOps ++ [EditOp.del (.name "c".toList)]).foldl step {}).slots =
     [some { colA with col := { colA.col with index := some 0 } }] := by decide
+
+/-- `popitem()` takes the first position and leaves a gap there; a second one meets the gap and fails with `KeyError`,
+    leaving the record as it was; `clear()` therefore stops after one round on a record with a gap after slot 0 -/
+example : ((demoOps ++ [EditOp.pop]).foldl step {}).slots = [none, none, some colC] := by decide
+
+example : ((demoOps ++ [EditOp.pop]).foldl step {}).popItem.2 = .error .key := by rfl
+
+example : ((demoOps ++ [EditOp.clear]).foldl step {}).slots = [none, none, some colC] := by decide
+
+/-- on a record without gaps `clear()` ... also stops after the first round (slot 0 is then a gap): the inherited
+    `clear` empties a `MafRecord` only when it holds a single column -/
+example : (([EditOp.set (.int 0) colA, EditOp.clear] : List EditOp).foldl step {}).slots = [] := by decide
 
 end C15
